@@ -8,10 +8,12 @@ open Huginn.Drv Huginn.Tls
 /-- The concrete parser the driver plugs into the reader model (the theorems hold for any). -/
 def parse (b : Bytes) : PR Signature := parseClientHello knownBodyOk b
 
-/-- the harness prints fingerprints with everything outside `!`..`~` (and `\\`) escaped as `\\u{hex}` -/
+/-- The harness prints fingerprints with everything but letters, digits and `_` escaped as `\\u{hex}`.
+Only letters, digits and `_` go through unescaped: a JA4 string carries the first and last character of the
+first ALPN value verbatim, and `;`, `,`, `/` and the space are separators of this line protocol. -/
 def esc (l : List Char) : String :=
   String.join (l.map (fun c =>
-    if '!' ≤ c ∧ c ≤ '~' ∧ c ≠ '\\' then c.toString
+    if c.isAlphanum ∨ c = '_' then c.toString
     else "\\u{" ++ String.ofList (Nat.toDigits 16 c.toNat) ++ "}"))
 
 def ja4Of (s : Signature) : String := esc (generateJa4 Huginn.Sha256.sha256 s false).full
